@@ -87,7 +87,9 @@ def old_cases(rng, tier):
     for style, ident in styles:
         for rw, rh in [(1, 1), (2, 1), (3, 2), (2, 3), (4, 4)]:
             for padw, padh, ha, va in [(0, -2, None, None), (rw, rh, "<", "^"), (6, 5, ">", "_"),
-                                       (rw + 1, rh + 2, "|", "-"), (1, 1, None, None), (0, 0, "<", "_")]:
+                                       (rw + 1, rh + 2, "|", "-"), (1, 1, None, None), (0, 0, "<", "_"),
+                                       # narrower than the render, taller than it: vertical padding only
+                                       (1, rh + 2, None, "_"), (max(rw - 1, 1), rh + 1, ">", "^")]:
                 pw = max(rw, padw if padw > 0 else max(cols + padw, 1))
                 ph = max(rh, padh if padh > 0 else max(rows + padh, 1))
                 if pw > cols or ph > rows:
